@@ -97,7 +97,7 @@ class StdVector(Plugin):
             q = qt.replace('const ', '').strip()
             q = re.sub(r'\s*\*$', '', q).strip()
             r = self.type_for(q, unit)
-            if r: return r[len('struct '):]
+            if r and self.is_model_type(r): return r[len('struct '):]       # only the container itself, not what an element type resolves to
         return None
 
     def member_call(self, unit, n, me, base, args):
@@ -629,7 +629,10 @@ class OpaqueTypes(Plugin):
     def is_model_type(self, ct): return ct.replace('const ', '').strip() in self.names
     def field_init(self, unit, f, ct, target, e): return []
     def field_dtor(self, unit, f, ct, target): return []
-    def local_object(self, unit, v, ct, name, ks, p): unit.w(p + '%s %s;' % (ct.replace('const ', ''), name))
+    def local_object(self, unit, v, ct, name, ks, p):
+        if ks and not (unit.strip_tmp(ks[0])['kind'] == 'CXXConstructExpr' and not unit.kids(unit.strip_tmp(ks[0]))):
+            unit.dropped.append('initialiser of the opaque local %s (%s) in %s: the object is an oracle, its content is not modelled' % (name, ct, unit.cur))
+        unit.w(p + '%s %s;' % (ct.replace('const ', ''), name))
     def pair_type(self, unit, qt):
         """std::pair<K, V> (the value type of the opaque maps): a plain struct { K first; V second; }"""
         m = re.match(r'^std::pair<(.*)>$', canon_type(qt.replace('const ', '', 1) if qt.startswith('const ') else qt).strip())
